@@ -200,6 +200,16 @@ def features(case):
         feats.append("shared_cutoff")
     if scene["circ"] and any(2 * r["cutoff"] + 2 >= scene["L"] for r in rules):
         feats.append("cutoff_window_covers_record")
+
+    def spliced_over_origin(loc):
+        # several exons, the walk along them passes the origin, and some intron is left open
+        fwd = loc["parts"][::-1] if loc["strand"] == -1 else loc["parts"]
+        if len(fwd) < 2 or not any(later[0] < earlier[0] for earlier, later in zip(fwd, fwd[1:])):
+            return False
+        walk = (fwd[-1][1] - fwd[0][0]) % scene["L"] or scene["L"]
+        return sum(end - start for start, end in fwd) < walk
+    if scene["circ"] and sum(1 for loc in scene["locs"] if spliced_over_origin(loc)) >= 2:
+        feats.append("two_spliced_genes_over_origin")
     return sorted(set(feats))
 
 
